@@ -19,7 +19,12 @@ P = {'id': 'C09',
               'intvec_read_bits',
               'intvec_any_strategy',
               'intvec_analysis_widths_cover',
-              'intvec_construct_get'],
+              'intvec_construct_get',
+              'uintvector_any_strategy',
+              'uintvector_get_build',
+              'uintvector_push_equals_bulk',
+              'min0_build_from_u32_get',
+              'min0_build_from_i32_get'],
  'trusted': ['modelled (M+S): src/containers/uint_vec_min0.rs (compute_uintbits, compute_mem_size, get, set/set_uint_bits single-word path, new, resize, '
              'push_back all three paths, build_from_usize) with the byte vector represented as (length, little-endian number); '
              'src/containers/zip_int_vec.rs (new, get, set, build_from_usize/u32, push_back, resize) on top of it; '
@@ -32,8 +37,10 @@ P = {'id': 'C09',
              'estimated sizes, write_bits both paths, write_bits_bulk, read_bits incl. the ninth byte, compress_raw/min_max/delta/block_based and '
              'their *_bulk_simd counterparts incl. the byte-aligned copies, get_raw/get_min_max/get_delta/get_block_based, get, from_slice, '
              'from_slice_bulk, from_slice_bulk_simd with its size dispatch)',
-             'spec-only cells (direct oracle, no mechanism model): '
-             'UintVector build_from/push, UintVecMin0::build_from_i32/u32',
+             'src/containers/specialized/uint_vector.rs (calculate_run_ratio, estimate_run_length_size, compute_compressed_size, should_compress, '
+             'analyze_optimal_strategy, compress_raw/min_max_bit_packed/run_length, write_bits_fast both paths, read_bits_fast, get_raw/get_min_max_bit_packed/'
+             'get_run_length, get with pending values, push, quick_append, recompress_all, build_from); UintVecMin0::build_from_u32/build_from_i32 on top of the modelled new/set',
+             'spec-only cells (direct oracle, no mechanism model): none',
              'not modelled: the byte-wise slow path of set_uint_bits (reachable only for widths > 58, which is the recorded finding); '
              'src/containers/specialized/int_vec/int_vec_simd.rs is not compiled into the crate (int_vec.rs declares an inline module of the same name), so nothing of it can run; '
              'IntVec functions no constructor reaches (compress_with_bulk_strategy and its non-SIMD bulk writers, compress_with_fast_strategy, analyze_bulk_fast_strategy, '
@@ -43,8 +50,11 @@ P = {'id': 'C09',
                  'BMI2 PEXT with a contiguous mask and BEXTR are modelled by shift-and-mask; the AVX2 add in get_block by a wrapping add',
                  'IntVec: products of a length and a bit width do not wrap usize (they cannot for a slice that fits in memory); the f64 comparison of estimated '
                  'compression ratios in analyze_optimal_strategy is a parameter of the model (the theorems hold for every comparison function; the replayed cases use '
-                 'the comparison of the numerators); fast_copy is a byte copy; agreement of model and code (len, data+index byte size, every replayed get) on the generated cases only'],
- 'level_text': 'Machine-checked Coq theorems about bit-exact Gallina models of four of the packed containers. UintVecMin0: for every width <= 58, every '
+                 'the comparison of the numerators); fast_copy is a byte copy; agreement of model and code (len, data+index byte size, every replayed get) on the generated cases only',
+                 'UintVector: the f64 comparisons `ratio < 0.8` and `run_ratio > 0.5` are parameters of the model (the theorems hold for every pair of comparison functions; '
+                 'the replayed cases use the exact rational comparisons, which agree with f64 for all sizes below 2^40 bytes); agreement of model and code (len, stats().1 = stored bytes, '
+                 'probes during construction, every replayed get) on the generated cases only'],
+ 'level_text': 'Machine-checked Coq theorems about bit-exact Gallina models of the five packed containers. UintVecMin0: for every width <= 58, every '
                'index and every memory content, a field never straddles the 64-bit load window, in-range reads and writes are defined and stay inside the '
                'allocation, a write reads back and leaves every other element unchanged, bulk build returns every element for all sequences whose range '
                'fits 58 bits, in-place push_back appends without disturbing earlier elements; refutation witness for widths above 58. ZipIntVec: bulk build '
@@ -58,11 +68,14 @@ P = {'id': 'C09',
                'cover the input, on either compression path, for u8..u64 and i8..i64, the build succeeds, the length is kept, element i reads back with its '
                'sign and reads past the end return None; the widths computed by the small-dataset, fast and full analyses (global range, per-block maximum '
                'offset, largest block minimum, maximum adjacent delta, uniform delta) always cover; hence from_slice / from_slice_bulk / '
-               'from_slice_bulk_simd return every element for every input. The models are tied to the code by replaying generated '
-               'cases in Coq and comparing every output. UintVector and the typed UintVecMin0 builders are decided by a boundary-biased differential '
-               'oracle only, labelled S-only.',
+               'from_slice_bulk_simd return every element for every input. UintVector: with whatever strategy covers the input (raw, min-max bit '
+               'packing, run length) the stored fields read back; build_from returns every element of every u32 sequence whatever the two floating-point '
+               'comparisons of its analysis answer; construction by push (pending values, recompression of everything at every 64th push) succeeds and '
+               'equals bulk construction at every index. UintVecMin0::build_from_u32 / build_from_i32 store every element of every u32 / i32 sequence '
+               '(i32::MIN together with i32::MAX included). The models are tied to the code by replaying generated '
+               'cases in Coq and comparing every output.',
  'level_note': 'Trusted: Coq kernel + vm_compute; hand-written models; harness generators and shadow-Vec oracle. Unsafe pointer reads are modelled as index '
                'arithmetic with an explicit out-of-bounds outcome; growing byte vectors as (length, number).',
  'technique': 'Coq proof by bit extensionality (N.testbit) + packed-field-array invariant through the builder loops + induction over build; '
-              'model/implementation differential check on generated cases by vm_compute; differential oracle for S-only cells',
- 'explanation': 'Unbounded theorems for UintVecMin0, ZipIntVec, SortedUintVec and IntVec<T>; differential oracle for UintVector.'}
+              'model/implementation differential check on generated cases by vm_compute; direct shadow-Vec oracle on every cell',
+ 'explanation': 'Unbounded theorems for UintVecMin0 (incl. the typed builders), ZipIntVec, SortedUintVec, IntVec<T> and UintVector.'}
